@@ -69,6 +69,10 @@ RAW_SQL = [
     "CREATE TABLE t2 ()", "CREATE TABLE (a INT)", "INSERT INTO t VALUES", "INSERT INTO t VALUES ()", "INSERT INTO t () VALUES ()",
     "UPDATE t SET i = i", "UPDATE t SET", "DELETE FROM t WHERE", "CREATE TABLE \"select\" (\"from\" INT)", "INSERT INTO \"select\" VALUES (1)",
     "SELECT \"from\" FROM \"select\"", "USE", "CREATE DATABASE", "SHOW", "SHOW TABLES", "SELECT", "SELECT *", "SELECT * FROM", "SELECT count(", "SELECT avg(*) FROM t",
+    "SELECT w.y FROM t RIGHT JOIN w ON t.i = w.x", "SELECT * FROM t RIGHT JOIN w ON t.i = 99 WHERE w.y = 'q'",
+    "SELECT w.x, count(w.y) FROM t RIGHT JOIN w ON t.i = w.x GROUP BY w.x", "SELECT t.s, w.y FROM w LEFT JOIN t ON t.i = w.x ORDER BY w.y",
+    "SELECT t.f, w.y FROM w RIGHT JOIN t ON t.i = w.x", "SELECT w.y, t.b FROM t LEFT JOIN w ON t.i = w.x WHERE t.b > 5",
+    "SELECT a.y, b.y, t.s FROM w a JOIN w b ON a.x = b.x RIGHT JOIN t ON t.i = a.x",
     "INSERT INTO sys_pages VALUES ('x', 5)", "UPDATE sys_pages SET file_offset = 12345", "DELETE FROM sys_schema", "SELECT * FROM sys_pages", "SELECT * FROM sys_schema",
 ]
 
@@ -86,12 +90,15 @@ def gen_case(rng, state):
         evs.append(("sql_stmt", {"k": "insert", "table": "t", "cols": [], "rows": [[1, 10, "a", True], [2, 20, "b", False], [2, 5, "a", True]]}))
         evs.append(("sql_stmt", {"k": "insert", "table": "t", "cols": ["i"], "rows": [[7]]}))        # NULLs in b, s, f
         evs.append(("sql_stmt", {"k": "insert", "table": "t", "cols": ["s", "f"], "rows": [["z", False]]}))  # NULLs in i, b
+        # a narrower second table with unmatched keys, for outer joins in both directions
+        evs.append(("sql_stmt", {"k": "create", "table": "w", "cols": [("x", "int", 0), ("y", "varchar", 20)]}))
+        evs.append(("sql_stmt", {"k": "insert", "table": "w", "cols": [], "rows": [[1, "p"], [50, "q"], [51, "r"]]}))
         tables = ["t"]
     for st in dml_statements(rng, tables or ["t"]):
         evs.append(("sql_stmt", st))
         if state == "populated":
             evs.append(("read", ["t", "n1"]))
-    raws = rng.sample(RAW_SQL, 25)
+    raws = rng.sample(RAW_SQL, 32)
     return evs, raws
 
 
